@@ -165,11 +165,12 @@ def extract(p, sc=0):
                 onstart = bool(d.get("onstart"))
                 mg = bool(d.get("maxgapduration"))
                 gl = bool(d.get("gaplength"))
+                glen = int(dur_secs(d.get("gaplength")) // 3600) if gl else 0      # whole hours, counted as slots (D24)
             else:
-                tt, gap, onstart, mg, gl = d, None, False, False, False
+                tt, gap, onstart, mg, gl, glen = d, None, False, False, False, 0
             known = tt.fullId in tix and tasks[tix[tt.fullId] - 1] is tt
             e = {"p": tix[tt.fullId] if known else 0, "onstart": onstart, "gap": dur_secs(gap) if gap else 0,
-                 "clone": not known, "maxgap": mg, "gaplen": gl}
+                 "clone": not known, "maxgap": mg, "gaplen": gl, "glen": glen}
             if e not in out:
                 out.append(e)
         return out
